@@ -54,7 +54,7 @@ impl Rk { fn coq(&self) -> &'static str { match self { Rk::Code => "KCode", Rk::
 enum Owner { None, Func(u64), Global(u64), Export(u64) }
 impl Owner { fn coq(&self) -> String { match self { Owner::None => "ONone".into(), Owner::Func(i) => format!("(OFunc {i})"), Owner::Global(i) => format!("(OGlobal {i})"), Owner::Export(k) => format!("(OExport {k})") } } }
 #[derive(Clone, Debug)]
-struct Site { k: Rk, sp: Sp, id: u64, owner: Owner, flavour: u64 }
+struct Site { k: Rk, sp: Sp, id: u64, owner: Owner, flavour: u64, flavour2: u64 }
 
 fn memty(initial: u64) -> wasmparser::MemoryType { wasmparser::MemoryType { memory64: false, shared: false, initial, maximum: None, page_size_log2: None } }
 
@@ -90,12 +90,13 @@ fn code_site_ops(n: usize, s: &Site) -> Vec<Operator<'static>> {
     match s.sp {
         Sp::F => { if s.flavour % 5 == 4 { v.push(Operator::ReturnCall { function_index: id }); } else { v.push(Operator::Call { function_index: id }); } }
         Sp::G => { v.push(Operator::GlobalGet { global_index: id }); v.push(Operator::Drop); }
-        Sp::M => match s.flavour % 8 {
+        Sp::M => match (if s.flavour >= 100 { 100 } else { s.flavour % 8 }) {
             0 => { v.push(Operator::I32Const { value: 0 }); v.push(Operator::I32Load { memarg: ma(2) }); v.push(Operator::Drop); }
             1 => { v.push(Operator::MemorySize { mem: id }); v.push(Operator::Drop); }
             2 => { v.push(Operator::I32Const { value: 0 }); v.push(Operator::I64Const { value: 0 }); v.push(Operator::I64Store { memarg: ma(3) }); }
             3 => { v.push(Operator::I32Const { value: 0 }); v.push(Operator::I32Const { value: 0 }); v.push(Operator::I32Const { value: 0 }); v.push(Operator::MemoryFill { mem: id }); }
-            4 => { v.push(Operator::I32Const { value: 0 }); v.push(Operator::I32Const { value: 0 }); v.push(Operator::I32Const { value: 0 }); v.push(Operator::MemoryCopy { dst_mem: id, src_mem: id }); }
+            4 => { v.push(Operator::I32Const { value: 0 }); v.push(Operator::I32Const { value: 0 }); v.push(Operator::I32Const { value: 0 }); v.push(Operator::MemoryCopy { dst_mem: id, src_mem: s.flavour2 as u32 }); }
+            100 => { return vec![]; }
             5 => { v.push(Operator::I32Const { value: 0 }); v.push(Operator::V128Load { memarg: ma(4) }); v.push(Operator::Drop); }
             6 => { v.push(Operator::I32Const { value: 0 }); v.push(Operator::I32AtomicLoad { memarg: ma(2) }); v.push(Operator::Drop); }
             _ => { v.push(Operator::I32Const { value: 0 }); v.push(Operator::MemoryGrow { mem: id }); v.push(Operator::Drop); }
@@ -267,7 +268,7 @@ fn decode(out: &[u8], elem_sites: &[usize], start_site: Option<usize>, init_get:
                                     Operator::I32Load { memarg } | Operator::I32Load8U { memarg } | Operator::I64Store { memarg } | Operator::I32Store8 { memarg }
                                     | Operator::V128Load { memarg } | Operator::I32AtomicLoad { memarg } => Some(memarg.memory as u64),
                                     Operator::MemorySize { mem } | Operator::MemoryGrow { mem } | Operator::MemoryFill { mem } => Some(*mem as u64),
-                                    Operator::MemoryCopy { dst_mem, src_mem } => Some(if dst_mem == src_mem { *dst_mem as u64 } else { 555555 }),
+                                    Operator::MemoryCopy { dst_mem, src_mem } => { d.sites.push((n + 1, *src_mem as u64)); Some(*dst_mem as u64) }
                                     Operator::I32Const { value } if (*value as u32 as u64) >= MARK => { break; }
                                     _ => None,
                                 };
@@ -321,13 +322,13 @@ fn gen_case(r: &mut Rng, prop: &str, seed: u64, idx: u64) -> Case {
     if nimp[1] > 0 && r.chance(1, 2) {
         let g = r.below(nimp[1]);
         base.globals.push((FP_GETTER, Some((Sp::G, g)))); len[1] += 1;
-        sites.push(Site { k: Rk::Init, sp: Sp::G, id: g, owner: Owner::Global(len[1] - 1), flavour: 0 });
+        sites.push(Site { k: Rk::Init, sp: Sp::G, id: g, owner: Owner::Global(len[1] - 1), flavour: 0, flavour2: 0 });
         init_owner_ids.push((len[1] - 1, sites.len() - 1, true));
     }
     if r.chance(1, 3) {
         let f = r.below(len[0]);
         base.globals.push((FP_REFFUNC, Some((Sp::F, f)))); len[1] += 1;
-        sites.push(Site { k: Rk::Init, sp: Sp::F, id: f, owner: Owner::Global(len[1] - 1), flavour: 0 });
+        sites.push(Site { k: Rk::Init, sp: Sp::F, id: f, owner: Owner::Global(len[1] - 1), flavour: 0, flavour2: 0 });
         init_owner_ids.push((len[1] - 1, sites.len() - 1, false));
     }
     // exports
@@ -335,26 +336,26 @@ fn gen_case(r: &mut Rng, prop: &str, seed: u64, idx: u64) -> Case {
     for _ in 0..r.below(4) {
         let sp = pick_sp(r);
         if len[sp.code()] == 0 { continue; }
-        sites.push(Site { k: Rk::Export, sp, id: r.below(len[sp.code()]), owner: Owner::Export(nexports), flavour: 0 });
+        sites.push(Site { k: Rk::Export, sp, id: r.below(len[sp.code()]), owner: Owner::Export(nexports), flavour: 0, flavour2: 0 });
         base.exports.push(sites.len() - 1); nexports += 1;
     }
-    if r.chance(1, 3) { sites.push(Site { k: Rk::Start, sp: Sp::F, id: r.below(len[0]), owner: Owner::None, flavour: 0 }); base.start = Some(sites.len() - 1); }
+    if r.chance(1, 3) { sites.push(Site { k: Rk::Start, sp: Sp::F, id: r.below(len[0]), owner: Owner::None, flavour: 0, flavour2: 0 }); base.start = Some(sites.len() - 1); }
     let mut elem_sites = vec![];
     for _ in 0..r.below(3) {
         let mut seg = vec![];
-        for _ in 0..1 + r.below(3) { sites.push(Site { k: Rk::ElemFn, sp: Sp::F, id: r.below(len[0]), owner: Owner::None, flavour: 0 }); seg.push(sites.len() - 1); }
+        for _ in 0..1 + r.below(3) { sites.push(Site { k: Rk::ElemFn, sp: Sp::F, id: r.below(len[0]), owner: Owner::None, flavour: 0, flavour2: 0 }); seg.push(sites.len() - 1); }
         elem_sites.extend(seg.iter().cloned()); base.elem_fn.push(seg);
     }
     if r.chance(1, 4) {
         let mut seg = vec![];
-        for _ in 0..1 + r.below(2) { sites.push(Site { k: Rk::ElemExpr, sp: Sp::F, id: r.below(len[0]), owner: Owner::None, flavour: 0 }); seg.push(sites.len() - 1); }
+        for _ in 0..1 + r.below(2) { sites.push(Site { k: Rk::ElemExpr, sp: Sp::F, id: r.below(len[0]), owner: Owner::None, flavour: 0, flavour2: 0 }); seg.push(sites.len() - 1); }
         elem_sites.extend(seg.iter().cloned()); base.elem_expr.push(seg);
     }
     if len[2] > 0 {
         for _ in 0..r.below(3) {
-            sites.push(Site { k: Rk::DataMem, sp: Sp::M, id: r.below(len[2]), owner: Owner::None, flavour: 0 });
+            sites.push(Site { k: Rk::DataMem, sp: Sp::M, id: r.below(len[2]), owner: Owner::None, flavour: 0, flavour2: 0 });
             let nm = sites.len() - 1;
-            let noff = if nimp[1] > 0 && r.chance(1, 3) { sites.push(Site { k: Rk::DataOff, sp: Sp::G, id: r.below(nimp[1]), owner: Owner::None, flavour: 0 }); Some(sites.len() - 1) } else { None };
+            let noff = if nimp[1] > 0 && r.chance(1, 3) { sites.push(Site { k: Rk::DataOff, sp: Sp::G, id: r.below(nimp[1]), owner: Owner::None, flavour: 0, flavour2: 0 }); Some(sites.len() - 1) } else { None };
             base.data.push((nm, noff));
         }
     }
@@ -362,7 +363,7 @@ fn gen_case(r: &mut Rng, prop: &str, seed: u64, idx: u64) -> Case {
     for _ in 0..r.below(5) {
         let sp = pick_sp(r);
         if len[sp.code()] == 0 { continue; }
-        sites.push(Site { k: Rk::Code, sp, id: r.below(len[sp.code()]), owner: Owner::Func(probe_id), flavour: r.below(4) });
+        sites.push(Site { k: Rk::Code, sp, id: r.below(len[sp.code()]), owner: Owner::Func(probe_id), flavour: r.below(4), flavour2: 0 });
         base.probe_sites.push(sites.len() - 1);
     }
     let bytes = build(&base, &sites);
@@ -407,7 +408,14 @@ fn gen_case(r: &mut Rng, prop: &str, seed: u64, idx: u64) -> Case {
             if matches!(op, HOp::AddLocal(Sp::F, _) | HOp::ImportToLocal(..)) {
                 for _ in 0..r.below(3) {
                     let s2 = pick_sp(r);
-                    if let Some(id) = pick(r, &known[s2.code()], &deleted[s2.code()]) { body_sites.push(Site { k: Rk::Code, sp: s2, id, owner: Owner::None, flavour: r.below(8) }); }
+                    if let Some(id) = pick(r, &known[s2.code()], &deleted[s2.code()]) {
+                        let fl = r.below(8);
+                        if s2 == Sp::M && fl == 4 {
+                            let src = pick(r, &known[2], &deleted[2]).unwrap_or(id);
+                            body_sites.push(Site { k: Rk::Code, sp: s2, id, owner: Owner::None, flavour: 4, flavour2: src });
+                            body_sites.push(Site { k: Rk::Code, sp: s2, id: src, owner: Owner::None, flavour: 100, flavour2: 0 });
+                        } else { body_sites.push(Site { k: Rk::Code, sp: s2, id, owner: Owner::None, flavour: fl, flavour2: 0 }); }
+                    }
                 }
             }
             let first_site = sites.len();
@@ -469,8 +477,8 @@ fn gen_case(r: &mut Rng, prop: &str, seed: u64, idx: u64) -> Case {
                             nimports_total += 1; deleted[0].retain(|x| x != id);
                             for st in sites.iter_mut() { if let Owner::Func(o) = st.owner { if o == *id { st.owner = Owner::Func(999999); } } }
                         }
-                        HOp::AddExport(s, id) => { sites.push(Site { k: Rk::Export, sp: *s, id: *id, owner: Owner::Export(nexports), flavour: 0 }); nexports += 1; }
-                        HOp::AddData(mem) => { sites.push(Site { k: Rk::DataMem, sp: Sp::M, id: *mem, owner: Owner::None, flavour: 0 }); }
+                        HOp::AddExport(s, id) => { sites.push(Site { k: Rk::Export, sp: *s, id: *id, owner: Owner::Export(nexports), flavour: 0, flavour2: 0 }); nexports += 1; }
+                        HOp::AddData(mem) => { sites.push(Site { k: Rk::DataMem, sp: Sp::M, id: *mem, owner: Owner::None, flavour: 0, flavour2: 0 }); }
                         _ => {}
                     }
                     if matches!(op, HOp::AddLocal(Sp::F, _)) { if let Some(id) = ret { for mut s in body_sites { s.owner = Owner::Func(id); sites.push(s); } } }
@@ -487,7 +495,14 @@ fn gen_case(r: &mut Rng, prop: &str, seed: u64, idx: u64) -> Case {
         let first_injected = sites.len();
         for _ in 0..1 + r.below(6) {
             let sp = pick_sp(r);
-            if let Some(id) = pick_any(r, &known[sp.code()], &deleted[sp.code()]) { sites.push(Site { k: Rk::Code, sp, id, owner: Owner::Func(probe_id), flavour: r.below(8) }); }
+            if let Some(id) = pick_any(r, &known[sp.code()], &deleted[sp.code()]) {
+                let fl = if sp == Sp::M && prop == "C08" && r.chance(1, 3) { 4 } else { r.below(8) };
+                if sp == Sp::M && fl == 4 {
+                    let src = pick_any(r, &known[2], &deleted[2]).unwrap_or(id);
+                    sites.push(Site { k: Rk::Code, sp, id, owner: Owner::Func(probe_id), flavour: 4, flavour2: src });
+                    sites.push(Site { k: Rk::Code, sp, id: src, owner: Owner::Func(probe_id), flavour: 100, flavour2: 0 });
+                } else { sites.push(Site { k: Rk::Code, sp, id, owner: Owner::Func(probe_id), flavour: fl, flavour2: 0 }); }
+            }
         }
         let enc = catch_unwind(AssertUnwindSafe(|| {
             {
